@@ -77,40 +77,43 @@ def jvpVariantAug (fs : List (Expr K)) (inits : List (List K)) (t : K) (num : Na
 def vadd (a b : List K) : List K := List.zipWith (· + ·) a b
 def vdivNat (a : List K) (n : Nat) : List K := a.map (· / natK n)
 
-/-- `jet_embedded(vf, *c, degree=deg, t=t)`: normalised coefficients `c_0 … c_{deg-1}` padded by `deg`
-zeros, pushed through `jet(..., is_tcoeff=True)`; `T` is the series of the time argument
-(`const t` in the current code, which closes over `t`).  Returns `2·deg` normalised coefficient
-vectors. -/
-def jetEmbedded (fs : List (Expr K)) (c : List (List K)) (T : TSer (2 * c.length) K) : List (List K) :=
+/-- `jet_embedded(vf, *c, degree=deg, t=t)` with `n = 2·deg`: normalised coefficients `c_0 … c_{deg-1}`
+padded by `deg` zeros, pushed through `jet(..., is_tcoeff=True)`; `T` is the series of the time argument
+(`const t` in the current code, which closes over `t`).  Returns `n` normalised coefficient vectors. -/
+def jetEmbeddedN (n : Nat) (fs : List (Expr K)) (c : List (List K)) (T : TSer n K) : List (List K) :=
   let deg := c.length
   let zeros : List K := (c.getD 0 []).map fun _ => 0
   let emb := c ++ List.replicate deg zeros
-  let S : Nat → Nat → TSer (2 * deg) K := fun _ i => TSer.ofFn (2 * deg) fun j => getU emb j i
-  let outs := fs.map (evalTS (2 * deg) S T)
-  tabulate (2 * deg) fun j => outs.map fun o => o.get j
+  let S : Nat → Nat → TSer n K := fun _ i => TSer.ofFn n fun j => getU emb j i
+  let outs := fs.map (evalTS n S T)
+  tabulate n fun j => outs.map fun o => o.get j
 
-/-- the JVP of `jet_embedded` with respect to `c_0 … c_{deg-1}` in the direction `v_0 … v_{deg-1}`:
-`Σ_i (∂f/∂u_i)(c(ε)) · v_i(ε)` in truncated-series arithmetic (`width` = state dimension) -/
-def jetEmbeddedJvp (fs : List (Expr K)) (d : Nat) (c v : List (List K)) (T : TSer (2 * c.length) K) :
-    List (List K) :=
+/-- the JVP (`jax.linearize`) of `jet_embedded` with respect to `c_0 … c_{deg-1}` in the direction
+`v_0 … v_{deg-1}` (forward mode through the truncated-series program, `jvpTS`) -/
+def jetEmbeddedJvpN (n : Nat) (fs : List (Expr K)) (c v : List (List K)) (T : TSer n K) : List (List K) :=
   let deg := c.length
-  let S : Nat → Nat → TSer (2 * deg) K := fun _ i => TSer.ofFn (2 * deg) fun j => getU c j i
-  let V : Nat → TSer (2 * deg) K := fun i => TSer.ofFn (2 * deg) fun j => if j < deg then getU v j i else 0
-  let outs : List (TSer (2 * deg) K) := fs.map fun f =>
-    (List.range d).foldl (fun acc i => acc + evalTS (2 * deg) S T (pd 0 i f) * V i) (TSer.const (2 * deg) 0)
-  tabulate (2 * deg) fun j => outs.map fun o => o.get j
+  let zeros : List K := (c.getD 0 []).map fun _ => 0
+  let emb := c ++ List.replicate deg zeros
+  let S : Nat → Nat → TSer n K := fun _ i => TSer.ofFn n fun j => getU emb j i
+  let V : Nat → Nat → TSer n K := fun _ i => TSer.ofFn n fun j => if j < deg then getU v j i else 0
+  let outs := fs.map (jvpTS n S V T)
+  tabulate n fun j => outs.map fun o => o.get j
 
-/-- one `double` step: from `deg` to `2·deg + 1` normalised coefficients -/
-def double (fs : List (Expr K)) (d : Nat) (tc : List (List K)) (T : TSer (2 * tc.length) K) : List (List K) :=
+/-- one `double` step with series length `n = 2·deg`: from `deg` to `2·deg + 1` normalised coefficients -/
+def doubleN (n : Nat) (fs : List (Expr K)) (tc : List (List K)) (T : TSer n K) : List (List K) :=
   let deg := tc.length
-  let fx := jetEmbedded fs tc T
+  let fx := jetEmbeddedN n fs tc T
   let zeros : List K := (tc.getD 0 []).map fun _ => 0
   let cs0 : List (List K) := vdivNat (fx.getD (deg - 1) []) deg :: List.replicate deg zeros
   let cs := (List.range deg).foldl (fun (cs : List (List K)) i =>
-      let lin := (jetEmbeddedJvp fs d tc cs.dropLast T).getD i []
+      let lin := (jetEmbeddedJvpN n fs tc cs.dropLast T).getD i []
       let new := vdivNat (vadd (fx.getD (deg + i) []) lin) (i + deg + 1)
       cs.set (i + 1) new) cs0
   tc ++ cs
+
+/-- `jetexpand_ode_coefficient_double` -/
+def double (fs : List (Expr K)) (tc : List (List K)) (T : TSer (2 * tc.length) K) : List (List K) :=
+  doubleN (2 * tc.length) fs tc T
 
 /-- `_apply_factorial_scaling` -/
 def factorialScale (c : List (List K)) : List (List K) :=
@@ -118,12 +121,12 @@ def factorialScale (c : List (List K)) : List (List K) :=
 
 /-- `jetexpand_ode_doubling_unroll(num_doublings)`, current code (`t` closed over: the series of
 the time argument is the constant `t`) -/
-def doubling (fs : List (Expr K)) (d : Nat) (u0 : List K) (t : K) (numDoublings : Nat) : List (List K) :=
-  factorialScale (iter (fun tc => double fs d tc (TSer.const _ t)) numDoublings [u0])
+def doubling (fs : List (Expr K)) (u0 : List K) (t : K) (numDoublings : Nat) : List (List K) :=
+  factorialScale (iter (fun tc => double fs tc (TSer.const _ t)) numDoublings [u0])
 
 /-- time-aware variant: the series of the time argument is `t + ε` -/
-def doublingAug (fs : List (Expr K)) (d : Nat) (u0 : List K) (t : K) (numDoublings : Nat) : List (List K) :=
-  factorialScale (iter (fun tc => double fs d tc
+def doublingAug (fs : List (Expr K)) (u0 : List K) (t : K) (numDoublings : Nat) : List (List K) :=
+  factorialScale (iter (fun tc => double fs tc
     (TSer.ofFn _ fun j => if j = 0 then t else if j = 1 then 1 else 0)) numDoublings [u0])
 
 end Jet
